@@ -1,0 +1,26 @@
+//go:build verif
+// +build verif
+
+package backend
+
+import "sync/atomic"
+
+// VerifSeekBalancers sets the round-robin counter of every balancer of d.
+func VerifSeekBalancers(d *DBInfo, n uint32) {
+	for _, b := range []*balancer{d.LocalBalancer, d.RemoteBalancer, d.GlobalBalancer} {
+		if b != nil {
+			atomic.StoreUint32(&b.nextIndex, n)
+		}
+	}
+}
+
+// VerifBalancerQueues returns copies of the weighted queues (local, remote, global; nil if absent).
+func VerifBalancerQueues(d *DBInfo) [3][]int {
+	var res [3][]int
+	for i, b := range []*balancer{d.LocalBalancer, d.RemoteBalancer, d.GlobalBalancer} {
+		if b != nil {
+			res[i] = append([]int{}, b.roundRobinQ...)
+		}
+	}
+	return res
+}
